@@ -97,6 +97,8 @@ def run_pool(modname, jobs, nproc=None, budget_s=None, progress=None):
             results.append(r)
             if progress:
                 progress(n, len(jobs), r)
+            elif os.environ.get('VERIF_PROGRESS') and (n % max(1, len(jobs) // 20) == 0):
+                sys.stderr.write('[%s] %d/%d jobs, %.0fs\n' % (modname, n, len(jobs), time.time() - t0))
     return results, left
 
 
